@@ -418,3 +418,57 @@ PROPS['C14'] = dict(
     level_text='Unbounded theorems: in every reachable network and for any evidence an adversary can assemble from existing signatures, a correct replica (one payload per view - a proved invariant of the replica model) is never reported as a double signer; every report is justified by a checked pair at that pair\'s root height; expired and early-phase evidence is refused; a (validator, height) pair is slashed at most once and a block naming it again is rejected; within a block a committee never slashes a validator by more than the cap. The evidence check and the index are compared with the real code on fabricated evidence with real signatures on every check.',
     level_note='Trusted: ideal signatures, hand-written mirrors tied by correspondence, the replica model of C01.',
 )
+
+PROPS['C09'] = dict(
+    props='props/C09.v',
+    models=['Commit'],
+    harness='c09',
+    args=dict(quick=['-chains', '1', '-blocks', '8', '-stride', '509'], escalated=['-chains', '2', '-blocks', '10', '-stride', '97'], thorough=['-chains', '6', '-blocks', '14', '-stride', '11']),
+    fingerprint_groups=['Commit', 'Store'],
+    rule='a REAL node (controller + FSM + store on an in-memory pebble file system) commits a chain of blocks with real certificates: transfers, '
+         'stakes, unstakes that finish (validator deletions), orders created and deleted, accounts drained to zero (state deletes: tombstone '
+         'purge), sometimes a memtable flush in the middle (history partly in a table file, partly in the log). The on-disk image is cut at '
+         'byte prefixes of the write-ahead log - every stride bytes (509 / 97 / 11 by tier), the last byte and the full log - which lands inside '
+         'and between all records; every cut is re-opened by a new node process, which must find itself exactly at one committed version: '
+         'latest-state scan, recomputed and recorded state root, block and certificate index for every earlier height and nothing for later '
+         'ones, historical scans at two earlier heights, and - for a third of the images - it must accept the reference chain\'s next certified '
+         'block and reach the reference\'s next header and state; versions must not decrease as the surviving log grows; a node that cannot '
+         're-open is reported directly; non-trivial: every image',
+    modelled='hand-modelled: the database as the fold of a log of atomic batches; Commit as ONE batch carrying latest state (sets, deletes), '
+             'historical state, the tree root, the index entry and the version; recovery as a prefix of the records. ASSUMED: pebble applies a batch '
+             'atomically and a crash keeps a prefix of the log records (torn last record dropped). The tie to the code - that Commit really puts '
+             'everything into one batch - is what the crash enumeration on the real store checks; compaction, manifest and table-file writes are '
+             'exercised (memtable flush) but not modelled.',
+    assumptions=['pebble: atomic batches, prefix-durable write-ahead log', 'file-system operations other than log appends are not cut (the image keeps every other file whole)'],
+    trusted_base=['model/Commit.v states the batch / log contract; the crash enumeration on the real node validates that the store obeys the one-batch discipline'],
+    level_text='Unbounded theorems over the batch / log model: whatever prefix of the log survives, the restarted node is at the height of the last surviving block with the version, the latest state, the recorded roots and the indexes of exactly that height, and continuing from there equals never having crashed; a commit split into two log records is proved to break this. On the real node the write-ahead log of a generated chain is cut at byte prefixes and every image is re-opened and compared component by component with the reference run: validation of the model\'s tie to the code, not a proof about pebble (partial).',
+    level_note='Partial: pebble\'s durability contract is assumed; crash points inside table-file / manifest writes are not enumerated.',
+)
+
+PROPS['C05'] = dict(
+    props='props/C05.v',
+    models=['Ledger', 'LedgerCheck', 'Auth'],
+    harness='c04',
+    args=dict(quick=['-prop', '5', '-states', '6', '-txs', '40'], escalated=['-prop', '5', '-states', '16', '-txs', '50'], thorough=['-prop', '5', '-states', '80', '-txs', '60']),
+    fingerprint_groups=['Auth', 'Ledger'],
+    rule='transactions of the 11 modelled kinds from the stateful generator plus transfers signed by ed25519, secp256k1 and eth-secp256k1 keys, '
+         'each submitted either as signed by its rightful key or as a variant: re-signed by another key of the population (a stranger; for '
+         'validator operations also the output address, which IS authorized), the owner\'s public key with another key\'s signature (forged), '
+         'content changed after signing (fee, memo, creation height); every variant goes through the real ApplyTransactions on a real FSM. The '
+         'harness records the address of the key that REALLY signed exactly those bytes (0 = none), whether the transaction executed, and the full '
+         'ledger scan before and after: what executes must be what the model executes for that signer (M), the signer must be authorized for the '
+         'message in that state and no other account may lose balance, and a refused transaction must leave no trace (V). (blocks) blocks of 3-6 '
+         'transfers mixing honest, validly-signed-but-unauthorized and forged-signature transactions in random order through the batch '
+         'signature verifier (proposer path): a transfer executes only if the owner of the debited account signed it (V); '
+         'non-trivial: transactions that executed',
+    modelled='hand-modelled: GetAuthorizedSignersFor / GetAuthorizedSignersForValidator, the authorization part of CheckSignature, the signer field '
+             'populated from the verified signer, on top of the ledger model (C04). Symbolic: signature verification per key type (the harness asks '
+             'the real crypto library which key signed). Not modelled: BLS multisig thresholds and RLP-wrapped Ethereum transactions (their '
+             'authorization goes through the same address comparison; the wrappers themselves are outside the model), certificate-result messages '
+             '(proposer key of the certificate: C02), DEX messages (sender only), the signature cache and the batch verifier (exercised by the block cases).',
+    assumptions=['signatures are unforgeable (a signature verifies under a key only if its owner produced it over exactly that content)',
+                 'order ids are transaction hashes (a created order never reuses the id of an open one)', 'amounts fit 64 bits'],
+    trusted_base=['model/Auth.v is a hand-written mirror of the authorization rules tied by the correspondence run on the real FSM'],
+    level_text='Unbounded theorems over the ledger model, for every message and state: a transaction not signed by a key the message\'s rules authorize changes nothing; if it takes effect, its signer was authorized and no account other than the signer\'s is debited; a validator record changes only at the hands of its operator or output address; an order only at the hands of its seller; escrow leaves a pool only to the seller on the seller\'s request. The rules are compared with the real CheckTx / ApplyTransactions on rightful, re-signed, forged and tampered transactions of several key types on every check. Partial: multisig, RLP wrappers, certificate-result and DEX messages are outside the model.',
+    level_note='Partial: key-type specifics (multisig thresholds, RLP re-derivation) are exercised only through the real library verdict, not modelled.',
+)
